@@ -63,7 +63,7 @@ def gen_population(rng):
         pop.append([f"o{i}", rng.choice(["Org", "Org", "Dept"]), None])
     persons = [p[0] for p in pop if p[0].startswith("p")]
     for i in range(rng.randint(0, 2)):
-        pop.append([f"c{i}", rng.choice(["Chief", "Chief", "ChiefF"]), rng.choice(persons)])
+        pop.append([f"c{i}", rng.choice(["Chief", "Chief", "Chief", "ChiefF", "ChiefF", "ChiefE"]), rng.choice(persons)])
     for i in range(rng.choice([0, 0, 1, 2])):
         pop.append([f"u{i}", "Unit", None])
     for i in range(rng.choice([0, 0, 1, 2])):
@@ -217,6 +217,9 @@ def witnesses():
                                                         "facts": [["p0", "works_for", "o0", "ctor"]]},
         "transitive-property-on-two-classes": {"pop": [["u0", "Unit", None], ["o0", "Org", None], ["o1", "Org", None]],
                                                "facts": [["o0", "sub_org_of", "o1", "append"], ["u0", "under", "o0", "append"]]},
+        "role-sub-property-in-constructor-before-the-role-taker-field": {
+            "pop": [["p0", "Person", None], ["o0", "Org", None], ["c0", "ChiefE", "p0"]],
+            "facts": [["c0", "head_of", "o0", "ctor"]]},
         "inverse-through-a-role-uses-the-declared-role-taker-type": {
             "pop": [["v0", "Convener", None], ["o0", "Org", None], ["h0", "Chair", "v0"]],
             "facts": [["o0", "attendees", "h0", "append"]]},
@@ -274,7 +277,7 @@ def run(spec, ctx):
     pop = {name: (cls, tk) for name, cls, tk in spec["pop"]}
     for name, (cls, tk) in pop.items():
         kinds[name] = cls
-        if cls in ("Chief", "ChiefF", "Chair"):
+        if cls in ("Chief", "ChiefF", "ChiefE", "Chair"):
             taker[name] = tk
 
     class Named(dict):
@@ -282,7 +285,10 @@ def run(spec, ctx):
 
         def create(self, name, **kwargs):
             cls, tk = pop[name]
-            if cls in ("Chief", "ChiefF", "Chair"):
+            if cls == "ChiefE":
+                C["role_class:" + cls] += 1
+                obj = om.ChiefE(kwargs.pop("head_of", None), self[tk])       # the field order of the class
+            elif cls in ("Chief", "ChiefF", "Chair"):
                 C["role_class:" + cls] += 1
                 obj = om.ALL_CLASSES[cls](self[tk], **kwargs)
             elif cls in ("VOrg", "VPerson"):
@@ -310,7 +316,14 @@ def run(spec, ctx):
             C["field:" + f] += 1
             C["form:" + forms_used[-1]] += 1
     except Exception as e:
-        return {"status": "fail", "kind": "assertion-raised:" + type(e).__name__, "key": None,
+        key = None
+        s_, f_, o_, form_ = spec["facts"][len(forms_used)]
+        if (kinds.get(s_) == "ChiefE" and f_ == "head_of" and form_ == "ctor" and s_ not in named and isinstance(e, TypeError)
+                and "weak reference to 'NoneType'" in str(e)):
+            # the other face of the listed finding: with an inverse property declared, the inverse is looked for on the
+            # role taker of the target - which the running constructor has not assigned yet
+            key = "role-sub-property-in-constructor-before-the-role-taker-field"
+        return {"status": "fail", "kind": "assertion-raised:" + type(e).__name__, "key": key,
                 "detail": f"{type(e).__name__}: {e}"[:300] + f" | facts={spec['facts']} forms={forms_used}"}
     for name in pop:
         named[name]
@@ -342,32 +355,45 @@ def run(spec, ctx):
             elif vals.count(o_) <= 1:
                 continue
             duplicate_problems.append(f"{n_}.{f_} holds {o_} {vals.count(o_)} times: {vals} (asserted at most once, not derivable before)")
-    # single-valued fields with several derivable values: membership only
-    singles = {}
-    for (s, f, o) in exp:
-        if f in OC.SINGLE:
-            singles.setdefault((s, f), set()).add(o)
-    multi = {k for k, v in singles.items() if len(v) > 1}
-    e_f = {t for t in exp if (t[0], t[1]) not in multi}
-    g_f = {t for t in fields if (t[0], t[1]) not in multi}
-    problems = list(duplicate_problems)
-    for (s, f) in multi:
-        got = {t[2] for t in fields if t[0] == s and t[1] == f}
-        if len(got) != 1 or not got <= singles[(s, f)]:
-            problems.append(f"single-valued {s}.{f} holds {sorted(got)}, derivable values are {sorted(singles[(s, f)])}")
-    if e_f != g_f:
-        problems.append(f"fields vs closure: missing {sorted(e_f - g_f)[:5]} extra {sorted(g_f - e_f)[:5]}")
-    if rel != exp:
-        problems.append(f"graph vs closure: missing {sorted(exp - rel)[:5]} extra {sorted(rel - exp)[:5]}")
-    if {t for t in rel if (t[0], t[1]) not in multi} != g_f:
-        d1 = {t for t in rel if (t[0], t[1]) not in multi}
-        problems.append(f"fields vs graph: only in graph {sorted(d1 - g_f)[:5]} only in fields {sorted(g_f - d1)[:5]}")
+    def judge(exp):
+        # single-valued fields with several derivable values: membership only
+        singles = {}
+        for (s, f, o) in exp:
+            if f in OC.SINGLE:
+                singles.setdefault((s, f), set()).add(o)
+        multi = {k for k, v in singles.items() if len(v) > 1}
+        e_f = {t for t in exp if (t[0], t[1]) not in multi}
+        g_f = {t for t in fields if (t[0], t[1]) not in multi}
+        problems = list(duplicate_problems)
+        for (s, f) in multi:
+            got = {t[2] for t in fields if t[0] == s and t[1] == f}
+            if len(got) != 1 or not got <= singles[(s, f)]:
+                problems.append(f"single-valued {s}.{f} holds {sorted(got)}, derivable values are {sorted(singles[(s, f)])}")
+        if e_f != g_f:
+            problems.append(f"fields vs closure: missing {sorted(e_f - g_f)[:5]} extra {sorted(g_f - e_f)[:5]}")
+        if rel != exp:
+            problems.append(f"graph vs closure: missing {sorted(exp - rel)[:5]} extra {sorted(rel - exp)[:5]}")
+        if {t for t in rel if (t[0], t[1]) not in multi} != g_f:
+            d1 = {t for t in rel if (t[0], t[1]) not in multi}
+            problems.append(f"fields vs graph: only in graph {sorted(d1 - g_f)[:5]} only in fields {sorted(g_f - d1)[:5]}")
+        return problems
+
+    problems = judge(exp)
+    # the listed finding: a role sub-property given to the constructor of a role class that declares the role's own field
+    # before the role-taker field - the role taker does not exist yet when the field is assigned, its super-properties
+    # are not inferred (and not made up for).  Judged by the mechanism: exactly the closure without that rule.
+    early = {(s_, f_, o_) for (s_, f_, o_, _), fm in zip(spec["facts"], forms_used) if fm == "ctor" and kinds.get(s_) == "ChiefE" and f_ == "head_of"}
+    known_key = None
+    if problems and early:
+        exp_known = OC.closure(facts, kinds, taker, without_role_taker_rule=early)
+        if exp_known != exp and not judge(exp_known):
+            known_key = "role-sub-property-in-constructor-before-the-role-taker-field"
     for k, items in raw.items():
         if len(items) != len(set(items)) and k[1] != "members":
             C["duplicate_list_entries"] += 1
     shape = "|".join(f"{f}:{fm}" for (_, f, _, _), fm in zip(spec["facts"], forms_used)) + "|" + ",".join(p[1][0] for p in spec["pop"])
     if problems:
-        return {"status": "fail", "kind": "closure-mismatch", "key": None,
+        return {"status": "fail", "kind": "closure-mismatch", "key": known_key,
                 "detail": "; ".join(problems[:3]) + f" | order={[(s, f, o) for s, f, o, _ in spec['facts']]} forms={forms_used}"}
     return {"status": "ok", "nontrivial": len(exp) - len(facts) >= 2, "shape": shape,
             "obs": {"asserted": len(facts), "closure": len(exp)}}
